@@ -235,7 +235,8 @@ type Program struct {
 	IJ    *ref.Value
 }
 
-var namespaces = []string{"ns0", "pkg.ns1", "a.b.c2", "x.y3"}
+// (some names repeat a segment, or hold a segment that is a prefix of another)
+var namespaces = []string{"ns0", "pkg.ns1", "a.b.c2", "x.y3", "x.app.views.app", "a.b.a.b", "example.ex", "n"}
 
 // Bundle generates a valid bundle: nFiles files, nTmpl templates in total;
 // template i may call templates with a higher index. Entry is template 0.
@@ -267,8 +268,9 @@ func (g *G) Bundle(nFiles, nTmpl int) *Program {
 		v.Set("names", names)
 		ij = &v
 	}
+	nsPerm := g.R.Perm(len(namespaces))
 	for i := 0; i < nFiles; i++ {
-		f := &ref.File{Name: fmt.Sprintf("file%d.soy", i), Namespace: namespaces[i%len(namespaces)]}
+		f := &ref.File{Name: fmt.Sprintf("file%d.soy", i), Namespace: namespaces[nsPerm[i%len(namespaces)]]}
 		if i > 0 && g.R.P(1, 4) {
 			// two files of one namespace, each with its own namespace attributes
 			f.Namespace = b.Files[i-1].Namespace
